@@ -11,8 +11,10 @@ Oracle, from the server log and the event stream:
  (d) after the stop request returned, no new scenario is started and at most `workers` further requests arrive;
  (e) with unique_inputs no two requests to one operation in the unit phases are equal (method, target, headers minus the
      case id, body);
- (f) thorough tier: with a rate limit n/s the number of arrivals in any 1 s window is <= n + 1 (inconclusive inside the
-     tolerance band, a violation only beyond n + workers).
+ (f) sub-check ``rate_limit``: with a rate limit n/s and 1-4 workers, the N arrivals between the first and the last
+     request (T seconds apart) satisfy N <= n * (ceil(T) + 1) + workers - the bound a sliding-window limiter of n per
+     second allows, widened by one whole window and one request per worker for arrival jitter, so that a stalled server
+     thread can never turn into an alarm.  The burst in the densest 0.8 s window is reported as a class only.
 """
 from __future__ import annotations
 
@@ -136,14 +138,60 @@ def check_run(ctx: Ctx, inp) -> None:
     ctx.case(nontrivial=inp if reached else None, classes=[f"reached={r}" for r in sorted(set(reached))] + [f"workers={cfg['workers']}", f"stop={stop['kind']}"], sample={"input": inp, "requests": len(record.requests), "reached": sorted(set(reached))})
 
 
+@st.composite
+def rate_case(draw):
+    n = draw(st.integers(2, 12))
+    workers = draw(st.integers(1, 4))
+    ops = draw(st.integers(1, 3))
+    seconds = draw(st.sampled_from([2, 3]))
+    phases = draw(st.sampled_from([["fuzzing"], ["coverage", "fuzzing"], ["fuzzing", "stateful"], ["examples", "coverage", "fuzzing", "stateful"]]))
+    return {"limit": n, "workers": workers, "ops": ops, "seconds": seconds, "phases": phases, "seed": draw(st.integers(1, 10**6))}
+
+
+def check_rate(ctx: Ctx, inp) -> None:
+    import math
+
+    from vfw.harness import engine_run, loopback
+
+    n, workers = inp["limit"], inp["workers"]
+    api = {"ops": [{"path": f"/r{i}", "behaviour": "ok", "with_example": True, "bounded": False} for i in range(inp["ops"])], "links": "stateful" in inp["phases"], "malformed": False, "binary_example": False, "link_target": "ok"}
+    # enough work to keep the limiter busy for `seconds` windows; the run is stopped once that much traffic was seen
+    cfg = {"phases": inp["phases"], "max_examples": max(4, (n * (inp["seconds"] + 1)) // inp["ops"] + 2), "workers": workers, "seed": inp["seed"], "checks": ["not_a_server_error"], "stateful_step_count": 4, "no_shrink": True}
+    server = loopback.shared(runs.make_script(api))
+    want = n * (inp["seconds"] + 1)
+
+    def on_event(event, stream, index):
+        if len(server.snapshot()) >= want:
+            stream.stop()
+
+    record = engine_run.run_engine(runs.build_doc(api), cfg, server, configure=lambda s: s.configure(rate_limit=f"{n}/s"), on_event=on_event, max_wall_s=30)
+    if record.exception:
+        ctx.case(classes=["engine-exception"])
+        ctx.disagree("engine:exception:" + record.exception.split(":")[0], f"engine run with a rate limit raised {record.exception}", input=inp)
+        return
+    at = sorted(r.at for r in record.requests)
+    if len(at) < 2:
+        ctx.case(classes=["no-traffic"])
+        return
+    total, span = len(at), at[-1] - at[0]
+    allowed = n * (math.ceil(span) + 1) + workers
+    burst = max(sum(1 for u in at[i:] if u - t < 0.8) for i, t in enumerate(at))
+    throttled = total > n and span >= 1.0
+    classes = [f"workers={workers}", "throttled" if throttled else "below-the-limit", "burst<=n" if burst <= n else ("burst<=n+workers" if burst <= n + workers else "burst>n+workers")]
+    if total > allowed:
+        ctx.disagree("rate-limit-exceeded", f"{total} requests arrived within {span:.2f} s with a rate limit of {n}/s and {workers} workers (a sliding window allows {allowed})", input=inp, arrivals=[round(t - at[0], 3) for t in at][:80])
+    ctx.case(nontrivial={"limit": n, "workers": workers, "ops": inp["ops"], "phases": inp["phases"]} if throttled else None, classes=classes, sample={"input": inp, "requests": total, "span_s": round(span, 2), "allowed": allowed, "densest_0.8s": burst})
+
+
 SUBS = [
     Sub("runs", collect=True, fn=check_run, strategy=run_case, quick=(16, 14), thorough=(16, 500), shrink_quick=False, timeout_quick=600, timeout_thorough=3400),
+    Sub("rate_limit", collect=True, fn=check_rate, strategy=rate_case, quick=(16, 3), thorough=(16, 40), shrink=False, shrink_quick=False, timeout_quick=600, timeout_thorough=3400),
 ]
-FLOOR = {"runs": 150}
+FLOOR = {"runs": 150, "rate_limit": 30}
 
 MANIFEST = {
     "category": "exploration",
     "technique": "Hypothesis-generated engine runs with drawn limits and stop requests against a recording loopback API; bounds checked on the server log and event stream",
-    "text": "Generated APIs with scripted misbehaviour are run through the real engine with drawn max_examples, stateful_step_count, max_failures, workers, unique_inputs and stop requests; from the recorded requests (attributed to phases through the recorders' case ids) and the events: an operation that never fails a check gets <= max_examples fuzzing requests, stateful scenarios have <= step-count steps, reported failed/errored scenarios <= max_failures with all later phases skipped for that reason, no new scenario and at most one request per worker after a stop request, and no duplicate request per operation in the unit phases with unique_inputs.",
-    "note": "Rate limiting (clause f) is a tolerance test planned for the thorough tier only and is not part of this check's verdict yet; interleavings are real-thread interleavings, not enumerated.",
+    "text": "Generated APIs with scripted misbehaviour are run through the real engine with drawn max_examples, stateful_step_count, max_failures, workers, unique_inputs and stop requests; from the recorded requests (attributed to phases through the recorders' case ids) and the events: an operation that never fails a check gets <= max_examples fuzzing requests, stateful scenarios have <= step-count steps, reported failed/errored scenarios <= max_failures with all later phases skipped for that reason, no new scenario and at most one request per worker after a stop request, and no duplicate request per operation in the unit phases with unique_inputs. A second sub-check runs the engine with a rate limit n/s (n 2-12, 1-4 workers, several phase selections) and bounds the number of arrivals between the first and last request by what a sliding window of n per second allows.",
+    "note": "The rate bound is deliberately wide (one extra window and one request per worker) so that scheduling jitter never alarms: it catches a limiter that is ignored, applied per worker or per operation, or off by a factor, not one that is a few percent fast. Interleavings are real-thread interleavings, not enumerated.",
 }
